@@ -8,7 +8,8 @@ LEVEL = ("Mechanism level: a call's own tetraplet is built from its resolved tri
          "impl — the returned tetraplet must come from populate_tetraplet_with_lambda (or the canon-map selector's "
          "update_tetraplet_with_path) — and the helper's table (value path -> add_lens(lambda), functor -> fresh tetraplet with "
          "the functor as LENS). The CanonStream impl is the deviant sibling (reproduced known finding). Correctness of lens "
-         "strings themselves is not decided.")
+         "strings themselves is not decided."
+         " Added: call-site table of update_tetraplet_with_path (element -> prefix kept), every value aggregate's get_tetraplet reads all provenance fields.")
 
 
 def check(ctx):
